@@ -124,7 +124,7 @@ def ext_Popen(ex, args, kw):
 def build(w):
     w.cls('g', fields={'waits': IntS, 'reaped': BoolS, 'fate_kind': IntS, 'fate_val': IntS, 'blocking_wait': BoolS,
                        'sentinel_waits': IntS, 'last_ready': BoolS, 'status_read': IntS, 'run_outcome': IntS, 'exit_arg': IntS,
-                       'forks': IntS, 'getpid': IntS, 'children': set_of(ref('Proc')), 'current': ref('Proc'),
+                       'forks': IntS, 'getpid': IntS, 'closes': IntS, 'children': set_of(ref('Proc')), 'current': ref('Proc'),
                        'preamble_failed': BoolS})
     w.cls('PopenF', module='popen_fork', pyname='Popen',
           fields={'returncode': opt(IntS), 'pid': IntS, 'sentinel': ValS})
@@ -134,7 +134,7 @@ def build(w):
           fields={'_popen': opt(ref('PopenF')), '_parent_pid': IntS, '_sentinel': ValS, '_start_method': opt(ValS),
                   '_name': ValS, '_controlled_termination': BoolS, 'pid': ValS, 'name': ValS})
     w.classes['Proc'].methods.update({'_Popen': ext_Popen, 'run': ext_run})
-    w.classes['PopenF'].methods['close'] = lambda ex, a, k: SNone()
+    w.classes['PopenF'].methods['close'] = lambda ex, a, k: (gset(ex, 'closes', SV(IntS, gget(ex, 'closes').e + 1)), SNone())[1]
     w.global_overrides['process._children'] = lambda ex: gget(ex, 'children')
     w.global_overrides['process._current_process'] = lambda ex: gget(ex, 'current')
     w.externals.update({
@@ -267,12 +267,15 @@ def build(w):
         inline=['process.BaseProcess.close'],
         requires=dict(kids, fate=fate, popen=popen_wf),
         modifies=['PopenF.returncode', 'g.waits', 'g.reaped', 'g.blocking_wait', 'g.sentinel_waits', 'g.last_ready',
-                  'g.children.*'],
+                  'g.children.*', 'g.closes'],
         ensures={
             'after_a_successful_join_no_longer_an_active_child':
                 'implies(val(self._popen).returncode is not None, not has(g.children, self))',
             'still_a_child_if_it_has_not_ended': 'implies(val(self._popen).returncode is None, '
                                                  'has(g.children, self) == old(has(g.children, self)))',
+            # a timed join that expires must leave the process object usable (its sentinel open) for the next join
+            'sentinel_closed_only_after_the_child_was_reaped': 'g.closes == old(g.closes) + '
+                                                               'ite(val(self._popen).returncode is not None, 1, 0)',
             'other_children_unchanged': 'all(implies(o != self, has(g.children, o) == old(has(g.children, o))) '
                                         'for o in refs("Proc"))',
             'timed_join_does_not_block_in_waitpid_unless_the_child_ended':
